@@ -148,6 +148,8 @@ Definition assign_member (r : setter_row) (inp : minput) : res :=
   | VMemberSet _, MUnhashable => Crash
   | VMemberTuple opts, MStr s => if str_mem s opts then Ok else Bad
   | VMemberTuple _, _ => Bad
+  | VMemberStr opts, MStr s => if str_mem s opts then Ok else Bad
+  | VMemberStr _, _ => Bad          (* the type test comes first: nothing is hashed *)
   | _, _ => Crash
   end.
 
